@@ -560,7 +560,7 @@ fn boundary_piece(rng: &mut Rng, which: u64) -> (Vec<u8>, &'static str) {
             _ => format!("{r}{s}{k}", r = role, s = sep, k = pk(rng, &[0, 1, 2, 3, 5, 6])),
         }
     };
-    let k = if which == 1 { rng.below(3) } else { rng.below(12) };
+    let k = if which == 1 { rng.below(3) } else { rng.below(15) };
     match k {
         0 => (format!("\x1b[{}m", sgr_colour(rng)).into_bytes(), "b.sgrcolour"),
         1 => (format!("\x1b[{};{};{}m", pk(rng, &SGR_CODES), sgr_colour(rng), pk(rng, &SGR_CODES)).into_bytes(), "b.sgrcolour"),
@@ -571,6 +571,14 @@ fn boundary_piece(rng: &mut Rng, which: u64) -> (Vec<u8>, &'static str) {
         6 => (format!("\x1b[{};{}R", pk(rng, &COORDS), pk(rng, &COORDS)).into_bytes(), "b.cpr"),
         7 => (format!("\x1bP1$r{}m\x1b\\", sgr_colour(rng)).into_bytes(), "b.decrpss"),
         9 | 10 => (format!("\x1b[?{};{}$y", pk(rng, &DEC_MODES), pk(rng, &DEC_STATUS)).into_bytes(), "b.decmode"),
+        12 | 13 | 14 => {
+            // legacy keys with a modifier parameter (ModifiedKeyMatcher) and their literal neighbours
+            const MASKS: [&str; 16] = ["0", "1", "2", "3", "8", "9", "16", "17", "128", "129", "255", "256", "257", "258", "65537", "99999999999999999999"];
+            const CODES: [&str; 24] = ["0", "1", "2", "3", "4", "5", "6", "7", "8", "9", "10", "11", "15", "16", "17", "21", "22", "23", "24", "25", "65537", "4294967297", "100000000000000000001", ""];
+            let fin = *rng.pick(&[b'A', b'B', b'C', b'D', b'F', b'H', b'P', b'Q', b'S', b'~', b'~', b'~', b'R', b'E']) as char;
+            let code = if fin == '~' || rng.chance(1, 4) { CODES[rng.below(CODES.len() as u64) as usize] } else { "1" };
+            (format!("\x1b[{};{}{}", code, MASKS[rng.below(MASKS.len() as u64) as usize], fin).into_bytes(), "b.modkey")
+        }
         11 => {
             let id = pk(rng, &OSC_IDS);
             let body = rng.pick(&["rgb:ff/00/80", "#ff0080", "1;rgb:1/2/3", "255;#000000", ";rgb:f/f/f"]).to_string();
